@@ -87,6 +87,10 @@ func (x *Exec) callStatic(fn *ssa.Function, args []Value, bind []Value, c *ssa.C
 		x.Summ[name]++
 		return in(x, &CallCtx{Fn: fn, Args: args, Common: c, Instr: x.curInstr, Caller: x.curCaller})
 	}
+	if x.P.MergeFns[name] && !x.Cfg.NoMerge {
+		x.Summ["merged:"+name]++
+		return x.mergeCall(fn, args, bind)
+	}
 	if x.P.shouldInterpret(fn) {
 		return x.CallFunction(fn, args, bind)
 	}
